@@ -237,6 +237,20 @@ pub fn run(cfg: &Cfg, rep: &mut Report) {
             }
         }
     }
+    // RWA flavour: the C04 history engine in conservation mode (only C01's monitors active)
+    for k in 0..nh {
+        let h = 50_000 + k;
+        if cfg.runs(h) {
+            crate::props::c04::history(cfg, rep, h, steps, crate::props::c04::Mode::Conservation);
+        }
+    }
+    // vault-share flavour: the C05 engine in conservation mode (deposit/withdraw events fold)
+    for k in 0..nh {
+        let h = 60_000 + k;
+        if cfg.runs(h) {
+            crate::props::c05::history(cfg, rep, h, steps, crate::props::c05::Mode::Conservation, (k % 11) as u32);
+        }
+    }
     let folded = *rep.counters.get("events_folded").unwrap_or(&0);
     rep.floor("events_folded", 100, folded);
 }
